@@ -918,13 +918,13 @@ func (c *FCtx) bitAnd(st *State, l, r *Term, k intKind) *Term {
 	}
 	// general case: uninterpreted, with sound facts about two's complement AND
 	res := App("band", SInt, l, r)
-	st.assume(Implies(Eq(l, Num(0)), Eq(res, Num(0))))
-	st.assume(Implies(Eq(r, Num(0)), Eq(res, Num(0))))
-	st.assume(Implies(Eq(l, Num(-1)), Eq(res, r)))
-	st.assume(Implies(Eq(r, Num(-1)), Eq(res, l)))
-	st.assume(Implies(Ge(l, Num(0)), And(Le(Num(0), res), Le(res, l))))
-	st.assume(Implies(Ge(r, Num(0)), And(Le(Num(0), res), Le(res, r))))
-	st.assume(rangeFact(res, k))
+	st.assumeAbout(res, Implies(Eq(l, Num(0)), Eq(res, Num(0))))
+	st.assumeAbout(res, Implies(Eq(r, Num(0)), Eq(res, Num(0))))
+	st.assumeAbout(res, Implies(Eq(l, Num(-1)), Eq(res, r)))
+	st.assumeAbout(res, Implies(Eq(r, Num(-1)), Eq(res, l)))
+	st.assumeAbout(res, Implies(Ge(l, Num(0)), And(Le(Num(0), res), Le(res, l))))
+	st.assumeAbout(res, Implies(Ge(r, Num(0)), And(Le(Num(0), res), Le(res, r))))
+	st.assumeAbout(res, rangeFact(res, k))
 	return res
 }
 
@@ -961,18 +961,20 @@ func (c *FCtx) bitOr(st *State, l, r *Term, k intKind, le, re ast.Expr) *Term {
 	if re != nil {
 		shiftConsts(re, c.info, cands)
 	}
-	for _, s := range []uint{4, 8, 16, 24} {
-		cands[s] = true
+	if len(cands) == 0 {
+		for _, s := range []uint{4, 8, 16, 24} {
+			cands[s] = true
+		}
 	}
 	for s := range cands {
 		p := Pow2(s)
-		st.assume(Implies(And(Eq(Mod(l, p), Num(0)), Le(Num(0), r), Lt(r, p)), Eq(res, Add(l, r))))
-		st.assume(Implies(And(Eq(Mod(r, p), Num(0)), Le(Num(0), l), Lt(l, p)), Eq(res, Add(l, r))))
+		st.assumeAbout(res, Implies(And(Eq(Mod(l, p), Num(0)), Le(Num(0), r), Lt(r, p)), Eq(res, Add(l, r))))
+		st.assumeAbout(res, Implies(And(Eq(Mod(r, p), Num(0)), Le(Num(0), l), Lt(l, p)), Eq(res, Add(l, r))))
 	}
-	st.assume(Implies(Eq(l, Num(0)), Eq(res, r)))
-	st.assume(Implies(Eq(r, Num(0)), Eq(res, l)))
-	st.assume(Implies(And(Ge(l, Num(0)), Ge(r, Num(0))), And(Le(l, res), Le(r, res), Le(res, Add(l, r)))))
-	st.assume(rangeFact(res, k))
+	st.assumeAbout(res, Implies(Eq(l, Num(0)), Eq(res, r)))
+	st.assumeAbout(res, Implies(Eq(r, Num(0)), Eq(res, l)))
+	st.assumeAbout(res, Implies(And(Ge(l, Num(0)), Ge(r, Num(0))), And(Le(l, res), Le(r, res), Le(res, Add(l, r)))))
+	st.assumeAbout(res, rangeFact(res, k))
 	return res
 }
 
@@ -981,9 +983,9 @@ func (c *FCtx) bitXor(st *State, l, r *Term, k intKind) *Term {
 		return wrapTo(NumB(new(big.Int).Xor(l.Num, r.Num)), k)
 	}
 	res := App("bxor", SInt, l, r)
-	st.assume(Implies(Eq(l, Num(0)), Eq(res, r)))
-	st.assume(Implies(Eq(r, Num(0)), Eq(res, l)))
-	st.assume(rangeFact(res, k))
+	st.assumeAbout(res, Implies(Eq(l, Num(0)), Eq(res, r)))
+	st.assumeAbout(res, Implies(Eq(r, Num(0)), Eq(res, l)))
+	st.assumeAbout(res, rangeFact(res, k))
 	return res
 }
 
